@@ -1,113 +1,172 @@
 import RsslVerif.Lemmas.MacroScope
+import RsslVerif.Lemmas.Include
 /-!
-API-level defines versus `#define` lines: what `Macro::parse` makes of the line `#define NAME value`, compared with the
-macro `preprocess_initial_file` builds from the pair `(NAME, value)`.
+API-level defines versus `#define` lines (after the 9f7cdb8 fix): the initial defines are processed by the very function
+that processes a `#define` line, so installing them equals running the lines `#define name value` first; and the
+macro list keeps pairwise distinct names through the whole run.
 -/
 namespace RsslVerif.Lemmas.MacroApi
-open RsslVerif.Model.Macro RsslVerif.Model.Include RsslVerif.Lemmas.MacroScope
+open RsslVerif.Model.Macro RsslVerif.Model.Include RsslVerif.Lemmas.MacroScope RsslVerif.Lemmas.Include
 
-def located (ts : List Tok) : List PTok := ts.map (⟨·, true⟩)
+/-- the line `#define name value` -/
+def defineLineOf (d : ApiDefine) : Line := .define (⟨.ws, true⟩ :: apiCommand d)
 
-/-- the tokens after `#define` of the line `#define NAME value` -/
-def defineLine (d : String × List Tok) : List PTok :=
-  ⟨.ws, true⟩ :: ⟨.id d.1, true⟩ :: ⟨.ws, true⟩ :: located d.2
-
-/-- the macro a `#define NAME value` line yields when the value is taken as it is -/
-def fileMacro (d : String × List Tok) : Macro :=
-  { name := d.1, isFunction := false, numParams := 0, body := located d.2 }
-
-/-- forget the location bits -/
-def eraseLoc (m : Macro) : Macro := { m with body := m.body.map (fun t => ⟨t.tok, true⟩) }
-
-/-- a value for which both routes agree: no leading or trailing blank (the API route does not trim), no `##`
-(the API route does not turn it into the paste operator) -/
-def ValueOk (v : List Tok) : Prop := trim (located v) = located v ∧ Tok.hashhash ∉ v
-
-theorem eraseLoc_api (d : String × List Tok) : eraseLoc (apiMacro d) = eraseLoc (fileMacro d) := by
-  simp [eraseLoc, apiMacro, fileMacro, located, List.map_map, Function.comp_def]
-
-theorem bodyTok_nil (t : PTok) (h : t.tok ≠ .hashhash) : bodyTok [] t = t := by
-  unfold bodyTok
-  split
-  · simp [indexOfName]
-  · rename_i hh; exact absurd hh h
-  · rfl
-
-theorem trim_ws_cons (v : List PTok) (b : Bool) : trim (⟨.ws, b⟩ :: v) = trim v := by
-  unfold trim trimStart
-  rw [List.dropWhile_cons]
-  simp [Tok.isBlank]
-
-theorem parseDefine_defineLine (d : String × List Tok) (hv : ValueOk d.2) :
-    parseDefine (defineLine d) = .ok (fileMacro d) := by
-  obtain ⟨htrim, hno⟩ := hv
-  have hstart : trimStart (defineLine d) = ⟨.id d.1, true⟩ :: ⟨.ws, true⟩ :: located d.2 := by
-    unfold defineLine trimStart
-    rw [List.dropWhile_cons]
-    simp only [Tok.isBlank, if_true]
+theorem parseDefine_ws_cons (c : List PTok) (b : Bool) : parseDefine (⟨.ws, b⟩ :: c) = parseDefine c := by
+  have : trimStart (⟨.ws, b⟩ :: c) = trimStart c := by
+    unfold trimStart
     rw [List.dropWhile_cons]
     simp [Tok.isBlank]
-  have hbody : (trim (⟨.ws, true⟩ :: located d.2)).map (bodyTok []) = located d.2 := by
-    rw [trim_ws_cons, htrim]
-    unfold located
-    rw [List.map_map]
-    apply List.map_congr_left
-    intro t ht
-    simp only [Function.comp]
-    apply bodyTok_nil
-    intro h
-    exact hno (h ▸ ht)
   unfold parseDefine
-  rw [hstart]
-  simp only [List.length_nil, Nat.zero_add, parseParams, splitAtTok, trim, trimStart, trimEnd,
-    List.dropWhile_nil, List.reverse_nil, List.isEmpty_nil, if_true, List.length_nil]
-  have hb' := hbody
-  simp only [trim, trimStart, trimEnd] at hb'
-  simp only [fileMacro, hb']
+  rw [this]
 
-/-- `#define` lines for pairwise distinct names, one after the other -/
-def defineAll : List Macro → List (String × List Tok) → Except Err (List Macro)
-  | ms, [] => .ok ms
-  | ms, d :: ds =>
-    match doDefine ms (defineLine d) with
-    | .error e => .error e
-    | .ok ms' => defineAll ms' ds
+theorem doDefine_ws_cons (ms : List Macro) (c : List PTok) (b : Bool) :
+    doDefine ms (⟨.ws, b⟩ :: c) = doDefine ms c := by
+  unfold doDefine
+  rw [parseDefine_ws_cons]
 
-theorem removeNamed_of_not_mem (n : String) (ms : List Macro) (h : n ∉ names ms) : removeNamed n ms = ms := by
-  induction ms with
-  | nil => rfl
-  | cons a as ih =>
-    simp only [names, List.map_cons, List.mem_cons, not_or] at h
-    have ha : a.name ≠ n := fun hh => h.1 hh.symm
-    simp only [removeNamed, ha, if_false]
-    rw [ih h.2]
+theorem applyMacros_nil (ms : List Macro) : applyMacros ms [] = .ok [] := by
+  unfold applyMacros
+  rw [applyLoop]
+  simp [SearchPos.start]
 
-theorem defineAll_spec (acc : List Macro) (ds : List (String × List Tok))
-    (hv : ∀ d ∈ ds, ValueOk d.2) (hn : (names acc ++ ds.map (·.1)).Nodup) :
-    defineAll acc ds = .ok (acc ++ ds.map fileMacro) := by
-  induction ds generalizing acc with
-  | nil => simp [defineAll]
+theorem flush_nil (st : State) : flush st [] = .ok st := by
+  unfold flush
+  rw [applyMacros_nil]
+  simp
+
+/-- running the `#define` lines of the API list = installing the API list -/
+theorem foldLines_defines (inc : Inc) (cur : String) (ms : List Macro) (out : List PTok) (once : List String)
+    (api : List ApiDefine) (rest : List Line) :
+    foldLines inc cur (⟨ms, out, once⟩, []) (api.map defineLineOf ++ rest) =
+      match initialMacros ms api with
+      | .error e => .error e
+      | .ok ms' => foldLines inc cur (⟨ms', out, once⟩, []) rest := by
+  induction api generalizing ms with
+  | nil => simp [initialMacros]
   | cons d ds ih =>
-    have hd : d.1 ∉ names acc := by
-      intro hmem
-      rw [List.nodup_append] at hn
-      exact hn.2.2 d.1 hmem d.1 (by simp) rfl
-    unfold defineAll doDefine
-    rw [parseDefine_defineLine d (hv d (by simp))]
-    simp only [fileMacro]
-    rw [removeNamed_of_not_mem d.1 acc hd]
-    have := ih (acc ++ [fileMacro d]) (fun x hx => hv x (by simp [hx])) (by
-      simp only [names, List.map_append, List.map_cons, List.map_nil, fileMacro, List.append_assoc,
-        List.singleton_append] at hn ⊢
-      exact hn)
-    simp only [fileMacro] at this
-    rw [this]
-    simp [fileMacro]
+    simp only [List.map_cons, List.cons_append, foldLines, defineLineOf, stepLine, flush_nil,
+      doDefine_ws_cons, initialMacros]
+    cases hd : doDefine ms (apiCommand d) with
+    | error e => rfl
+    | ok ms' => exact ih ms'
 
-theorem paste_unlocated_panics (l r : PTok) (h : l.located = false ∨ r.located = false) :
-    pasteTokens l r =
-      .error (.panic "preprocess/src/unlexer.rs: unlex does not support unlocated tokens") := by
-  unfold pasteTokens
-  rcases h with h | h <;> simp [h]
+theorem fileStart_of_ne_nil {ls : List Line} (h : ls ≠ []) : fileStart ls = [] := by
+  cases ls with
+  | nil => exact absurd rfl h
+  | cons _ _ => rfl
+
+/-! ## names stay pairwise distinct through the whole run -/
+
+theorem doDefine_nodup {ms ms' : List Macro} {cmd : List PTok} (hn : (names ms).Nodup)
+    (h : doDefine ms cmd = .ok ms') : (names ms').Nodup := by
+  obtain ⟨m, _, rfl⟩ := doDefine_eq h
+  exact nodup_applyEvent hn _
+
+theorem doUndef_nodup {ms ms' : List Macro} {cmd : List PTok} (hn : (names ms).Nodup)
+    (h : doUndef ms cmd = .ok ms') : (names ms').Nodup := by
+  obtain ⟨n, b, _, rfl⟩ := doUndef_eq h
+  exact nodup_applyEvent hn _
+
+theorem initialMacros_nodup {ms ms' : List Macro} (api : List ApiDefine) (hn : (names ms).Nodup)
+    (h : initialMacros ms api = .ok ms') : (names ms').Nodup := by
+  induction api generalizing ms with
+  | nil => simp only [initialMacros] at h; cases h; exact hn
+  | cons d ds ih =>
+    simp only [initialMacros] at h
+    cases hd : doDefine ms (apiCommand d) with
+    | error e => simp [hd] at h
+    | ok m1 =>
+      simp only [hd] at h
+      exact ih (doDefine_nodup hn hd) h
+
+def KeepsNodup (inc : Inc) : Prop :=
+  ∀ n st r, inc n st = .ok r → (names st.macros).Nodup → (names r.macros).Nodup
+
+theorem stepLine_nodup {inc : Inc} (hi : KeepsNodup inc) (cur : String) (s r : State × List PTok) (l : Line)
+    (h : stepLine inc cur s l = .ok r) (hn : (names s.1.macros).Nodup) : (names r.1.macros).Nodup := by
+  obtain ⟨st, active⟩ := s
+  cases l with
+  | text t => simp only [stepLine] at h; cases h; exact hn
+  | define cmd =>
+    simp only [stepLine] at h
+    cases hf : flush st active with
+    | error e => simp [hf] at h
+    | ok st1 =>
+      simp only [hf] at h
+      cases hd : doDefine st1.macros cmd with
+      | error e => simp [hd] at h
+      | ok ms =>
+        simp only [hd] at h; cases h
+        exact doDefine_nodup (by simpa [flush_macros hf] using hn) hd
+  | undef cmd =>
+    simp only [stepLine] at h
+    cases hf : flush st active with
+    | error e => simp [hf] at h
+    | ok st1 =>
+      simp only [hf] at h
+      cases hd : doUndef st1.macros cmd with
+      | error e => simp [hd] at h
+      | ok ms =>
+        simp only [hd] at h; cases h
+        exact doUndef_nodup (by simpa [flush_macros hf] using hn) hd
+  | pragmaWarning =>
+    simp only [stepLine] at h
+    cases hf : flush st active with
+    | error e => simp [hf] at h
+    | ok st1 => simp only [hf] at h; cases h; simpa [flush_macros hf] using hn
+  | pragmaOnce =>
+    simp only [stepLine] at h
+    cases hf : flush st active with
+    | error e => simp [hf] at h
+    | ok st1 => simp only [hf] at h; cases h; simpa [flush_macros hf] using hn
+  | incl name =>
+    simp only [stepLine] at h
+    cases hf : flush st active with
+    | error e => simp [hf] at h
+    | ok st1 =>
+      simp only [hf] at h
+      cases hn2 : inc name st1 with
+      | error e => simp [hn2] at h
+      | ok st2 =>
+        simp only [hn2] at h; cases h
+        exact hi name st1 st2 hn2 (by simpa [flush_macros hf] using hn)
+
+theorem foldLines_nodup {inc : Inc} (hi : KeepsNodup inc) (cur : String) (s r : State × List PTok)
+    (ls : List Line) (h : foldLines inc cur s ls = .ok r) (hn : (names s.1.macros).Nodup) :
+    (names r.1.macros).Nodup := by
+  induction ls generalizing s with
+  | nil => simp only [foldLines] at h; cases h; exact hn
+  | cons l ls ih =>
+    simp only [foldLines] at h
+    cases hs : stepLine inc cur s l with
+    | error e => simp [hs] at h
+    | ok s' =>
+      simp only [hs] at h
+      exact ih s' h (stepLine_nodup hi cur s s' l hs hn)
+
+theorem runFile_nodup {inc : Inc} (hi : KeepsNodup inc) (cur : String) (st r : State) (ls : List Line)
+    (h : runFile inc cur st ls = .ok r) (hn : (names st.macros).Nodup) : (names r.macros).Nodup := by
+  unfold runFile at h
+  cases hf : foldLines inc cur (st, fileStart ls) ls with
+  | error e => simp [hf] at h
+  | ok s' =>
+    obtain ⟨st1, a⟩ := s'
+    simp only [hf] at h
+    have := foldLines_nodup hi cur _ _ ls hf hn
+    simpa [flush_macros h] using this
+
+theorem includeFile_keepsNodup (h : Handler) (fuel : Nat) : KeepsNodup (includeFile h fuel) := by
+  induction fuel with
+  | zero => intro n st r hr; simp [includeFile] at hr
+  | succ k ih =>
+    intro n st r hr hn
+    simp only [includeFile] at hr
+    cases hh : h n with
+    | none => simp [hh] at hr
+    | some lines =>
+      simp only [hh] at hr
+      split at hr
+      · exact runFile_nodup ih n st r [] hr hn
+      · exact runFile_nodup ih n st r lines hr hn
 
 end RsslVerif.Lemmas.MacroApi
